@@ -51,7 +51,8 @@ def build_tree(seed, quick=True):
     dirs = [root]
     for d in range(r.randint(3, 6)):
         parent = r.choice(dirs)
-        p = os.path.join(parent, "d%d" % d)
+        # directory names beginning with one or two dots are ordinary directories for the walk (only "." and ".." are skipped)
+        p = os.path.join(parent, r.choice(["d%d", "d%d", ".d%d", "..d%d"]) % d)
         os.makedirs(p)
         dirs.append(p)
     ntop = r.randint(66, 90)            # more top-level files than queue slots, also without -r
@@ -81,6 +82,10 @@ def build_tree(seed, quick=True):
     for i in range(nnest):
         make(os.path.join(r.choice(dirs[1:]), "n%03d" % i), r.choice(kinds))
     make(os.path.join(root, "name with space.txt"), "text")
+    make(os.path.join(root, ".dotfile"), "text")
+    os.makedirs(os.path.join(root, ".cache", "objects"))
+    make(os.path.join(root, ".cache", "objects", "o1"), "text")
+    make(os.path.join(root, ".cache", "c1.txt"), "text")
     os.symlink([f for f in sorted(os.listdir(root)) if f.startswith("f000.")][0], os.path.join(root, "link_to_f000"))
     os.symlink("does-not-exist", os.path.join(root, "dangling"))
     return root
@@ -344,7 +349,8 @@ class Cli:
             lr = random.Random(sc["id"])
             order = files[:]
             lr.shuffle(order)
-            open(lst, "w").write("".join(f + "\n" for f in order))
+            # the last line of a list need not end with a newline
+            open(lst, "w").write("\n".join(order) + ("\n" if lr.random() < 0.5 else ""))
             target = ["--scan-list", lst]
             opts = [o for o in opts if o != "-r"]
         else:
